@@ -277,15 +277,33 @@ inductive ArrArg where
   | absent                              -- None
   deriving DecidableEq, Repr, Inhabited
 
-/-- the array that `create_data_array(name, type, data=…)` leaves in the block: key and id -/
+/-- `Block.create_data_array(name, type, data=…)` as `create_multi_tag` calls it: the same steps as
+`createInW … "data_array"`, returning the new array itself (the Python code holds the object) -/
 def autoArray (g : Graph) (blockPath : Path) (name type : String) (fault : Option Fault) :
     Graph × Except Err Nat :=
-  match createInW g blockPath "data_array" name type none fault with
-  | (g1, some e) => (g1, .error e)
-  | (g1, none) =>
-    match resolve g1 rootLoc (blockPath ++ [.name "data_arrays", .name name]) with
-    | some l => (g1, .ok l.key)
-    | none => (g1, .error .keyError)
+  match resolve g rootLoc blockPath with
+  | none => (g, .error .keyError)
+  | some o =>
+    if kindOf g o.key != "block" then (g, .error .attributeError)
+    else
+      match stageFault .pre fault with
+      | some e => (g, .error e)
+      | none =>
+      match checkNameType name type with
+      | .error e => (g, .error e)
+      | .ok () =>
+        if hasEntry g o.key "data_arrays" name then (g, .error .duplicateName)
+        else
+          match entityCreateNewW g o.key "data_arrays" name type "data_array" with
+          | (g1, .error e) => (g1, .error e)
+          | (g1, .ok (c, k)) =>
+            match stageFault .entity fault with
+            | some e => (g1.delLink c name, .error e)
+            | none =>
+              let g2 := addDataset g1 k "data"
+              match stageFault .data fault with
+              | some e => (g2.delLink c name, .error e)
+              | none => (g2, .ok k)
 
 /-- `del self.data_arrays[name]` for an auto-created array -/
 def dropAuto (g : Graph) (k : Option Nat) : Graph :=
